@@ -14,7 +14,7 @@
 (*   Untouched   on syntactically invalid input Unmarshal leaves the       *)
 (*               target as it was.                                         *)
 (***************************************************************************)
-EXTENDS JsonText
+EXTENDS Strings, Numbers
 
 Equivalent(a, b) == a[1] = b[1] /\ (a[1] => a[2] = b[2])
 
@@ -36,4 +36,51 @@ SpellJS(b) ==
 
 \* classic Valid: RFC 8259 without the RFC 7493 restrictions
 ClassicValid(bytes, maxd) == ValidOne(Opt(TRUE, TRUE, maxd), bytes)
+
+(***************************************************************************)
+(* The stream API of encoding/json (Decoder.Token, More, InputOffset) on   *)
+(* an input that is one valid JSON text, as a state machine over the token *)
+(* table of the input: state [i, off] - i tokens have been returned, off   *)
+(* is the read position.  Token returns the next token of the table        *)
+(* (delimiters as json.Delim; names and strings as string; numbers as      *)
+(* float64, or json.Number after UseNumber; literals as bool / nil) and    *)
+(* leaves the position behind it - separators are passed over on the way   *)
+(* to the next token - and io.EOF once the text is used up.  More passes   *)
+(* over whitespace only and answers whether a byte other than ] and }      *)
+(* follows.  InputOffset is the read position.                             *)
+(***************************************************************************)
+SInit == [i |-> 0, off |-> 0]
+
+\* position of the first byte at or after off that is not whitespace (Len + 1: none)
+SkipWS(input, off) ==
+    LET rest == {p \in (off + 1)..Len(input) : input[p] \notin WS} IN
+    IF rest = {} THEN Len(input) + 1 ELSE CHOOSE p \in rest : \A q \in rest : p <= q
+
+Ascii(str) == CASE str = "json.Delim " -> <<106, 115, 111, 110, 46, 68, 101, 108, 105, 109, 32>>
+                [] str = "string " -> <<115, 116, 114, 105, 110, 103, 32>>
+                [] str = "float64 " -> <<102, 108, 111, 97, 116, 54, 52, 32>>
+                [] str = "json.Number " -> <<106, 115, 111, 110, 46, 78, 117, 109, 98, 101, 114, 32>>
+                [] str = "bool true" -> <<98, 111, 111, 108, 32, 116, 114, 117, 101>>
+                [] str = "bool false" -> <<98, 111, 111, 108, 32, 102, 97, 108, 115, 101>>
+                [] str = "<nil> <nil>" -> <<60, 110, 105, 108, 62, 32, 60, 110, 105, 108, 62>>
+
+\* what fmt.Sprintf("%T %v", token) starts with (all of it, except for float64 values)
+TokenText(input, tk, useNumber) ==
+    CASE tk.k \in {"[", "]", "{", "}"} -> Ascii("json.Delim ") \o <<input[tk.s + 1]>>
+      [] tk.k \in {"str", "name"} -> Ascii("string ") \o FoldLeft(LAMBDA a, c : a \o Utf8Enc(c), <<>>, tk.str)
+      [] tk.k = "num" -> IF useNumber THEN Ascii("json.Number ") \o SubSeq(input, tk.s + 1, tk.e) ELSE Ascii("float64 ")
+      [] tk.k = "true" -> Ascii("bool true")
+      [] tk.k = "false" -> Ascii("bool false")
+      [] tk.k = "null" -> Ascii("<nil> <nil>")
+
+\* one call: [next state, ok, text] (text: prefix of the rendering; for More ok is the answer)
+SCall(input, toks, st, op, useNumber) ==
+    IF op = "Token" THEN
+         IF st.i < Len(toks)
+         THEN [st |-> [i |-> st.i + 1, off |-> toks[st.i + 1].e], ok |-> TRUE, text |-> TokenText(input, toks[st.i + 1], useNumber)]
+         ELSE [st |-> [st EXCEPT !.off = SkipWS(input, st.off) - 1], ok |-> FALSE, text |-> <<>>]
+    ELSE IF op = "More" THEN
+         LET p == SkipWS(input, st.off) IN
+         [st |-> [st EXCEPT !.off = p - 1], ok |-> p <= Len(input) /\ input[p] \notin {93, 125}, text |-> <<>>]
+    ELSE [st |-> st, ok |-> TRUE, text |-> NatChars(st.off)]
 =============================================================================
